@@ -560,7 +560,7 @@ func toInt(v any) (int, bool, bool) {
 	case int32:
 		return int(v), true, true
 	case int64:
-		if v > math.MaxInt {
+		if v > math.MaxInt || v < math.MinInt {
 			return 0, true, false
 		}
 
@@ -572,6 +572,10 @@ func toInt(v any) (int, bool, bool) {
 	case uint16:
 		return int(v), true, true
 	case uint32:
+		if uint64(v) > math.MaxInt {
+			return 0, true, false
+		}
+
 		return int(v), true, true
 	case uint64:
 		if v > math.MaxInt {
